@@ -206,7 +206,12 @@ def step6 (op res : String) : List String :=
                        (if addr16 peer == some src then [] else ["FAIL C12 reply not sent to the source address"]) ++
                        (if port == srcPort then [] else [s!"FAIL C12 reply sent to port {port}, the datagram came from port {srcPort}"])
             let f13 := if C13.holdsLog hs.length inv (some tags) orig then [] else [s!"FAIL C13 chain={chain} log={invW} sent={tags}"]
-            brs ++ (if m == out then [] else [s!"DIVERGE dom model={fmtOut6 m}"]) ++ f12 ++ f13
+            -- C12, relayed: the Relay-Reply layers enclose THE SERVER'S ANSWER to the innermost message — the response the chain
+            -- returned last, not an earlier stage of it (round 8: the envelope was built around the prepared reply before the chain ran)
+            let last : Option (List Nat) := match inv.getLast? with | some a => a.outp | none => some []
+            let f12r := if !ls.isEmpty && last != some tags then
+                [s!"FAIL C12 relayed request: the Relay-Reply encloses a message with tags {tags}, the answer the chain returned last has {last}"] else []
+            brs ++ (if m == out then [] else [s!"DIVERGE dom model={fmtOut6 m}"]) ++ f12 ++ f12r ++ f13
           | _, _, _ => brs ++ ["DIVERGE dom unparsed-result"]
         | _ => brs ++ [s!"DIVERGE dom unparsed-result {" ".intercalate outW}", s!"FAIL C01 HandleMsg6: {" ".intercalate outW}"]
     | _, _, _ => ["DIVERGE drift unparsed-op"]
